@@ -389,9 +389,9 @@ def rule_R15(text, deltas):
 
 
 def rule_R18(text, deltas):
-    """`for (P, Q) in E.enumerate() { BODY }`  ->  `let mut verif_cnt: usize = 0; for Q in E { let P = verif_cnt; BODY verif_cnt += 1; }`
-    (Enumerate yields the running count with each item; refused when BODY contains `continue`, which would skip the
-    increment; Verus has no spec for iterator adapters)"""
+    """`for (P, Q) in E.enumerate() { BODY }`  ->  `let mut verif_cnt: usize = 0; for Q in E { let P = verif_cnt; verif_cnt += 1; BODY }`
+    (Enumerate yields the running count with each item and then advances it, whatever BODY does - `continue` included;
+    Verus has no spec for iterator adapters)"""
     toks = code_tokens(text)
     T = lambda j: text[toks[j][1]:toks[j][2]]
     for j in range(len(toks) - 10):
@@ -419,15 +419,13 @@ def rule_R18(text, deltas):
                 continue
             bc = match_close(text, toks, found + 4)
             body = text[toks[found + 4][2]:toks[bc][1]]
-            if re.search(r'\bcontinue\b', body):
-                raise AssembleError('R18 does not apply (`continue` inside the enumerate loop)')
             P = T(j + 2)
             Q = text[toks[j + 3][2]:toks[pc][1]].strip()
             E = text[toks[pc + 1][2]:toks[found][1]].strip()
-            head = 'let mut verif_cnt: usize = 0;\nfor %s in %s {\nlet %s = verif_cnt;' % (Q, E, P)
-            new = head + body.rstrip() + '\nverif_cnt += 1;\n}'
+            head = 'let mut verif_cnt: usize = 0;\nfor %s in %s {\nlet %s = verif_cnt;\nverif_cnt += 1;' % (Q, E, P)
+            new = head + body.rstrip() + '\n}'
             a, z = toks[j][1], toks[bc][2]
-            deltas.append(dict(rule='R18', original=text[a:toks[found + 4][2]], rewritten=head + ' .. verif_cnt += 1; }'))
+            deltas.append(dict(rule='R18', original=text[a:toks[found + 4][2]], rewritten=head + ' .. }'))
             return text[:a] + new + text[z:]
     raise AssembleError('R18 does not apply (no `for (P, Q) in E.enumerate() {`)')
 
@@ -535,6 +533,45 @@ def rule_R19_more(text, deltas):
         return rule_R19(text, deltas)
     except AssembleError:
         return text
+
+
+def rule_R21(text, deltas):
+    """`for PAT in EXPR { BODY }`  ->  `let mut verif_it = EXPR; while let Some(PAT) = verif_it.next() { BODY }`
+    (what a `for` over an Iterator desugars to; Verus rejects `continue` inside `for` but accepts it in `while let`).
+    Applies to the FIRST `for` of the body."""
+    toks = code_tokens(text)
+    T = lambda j: text[toks[j][1]:toks[j][2]]
+    for j in range(len(toks) - 4):
+        if T(j) != 'for' or (j and T(j - 1) == '.'):
+            continue
+        k = j + 1
+        depth = 0
+        while k < len(toks) and not (T(k) == 'in' and depth == 0):
+            if T(k) in ('(', '[', '{'): depth += 1
+            elif T(k) in (')', ']', '}'): depth -= 1
+            k += 1
+        if k >= len(toks):
+            continue
+        q = k + 1
+        depth = 0
+        while q < len(toks):
+            t = T(q)
+            if t in ('(', '['):
+                depth += 1
+            elif t in (')', ']'):
+                depth -= 1
+            elif t == '{' and depth == 0:
+                break
+            q += 1
+        if q >= len(toks):
+            continue
+        pat = text[toks[j + 1][1]:toks[k][1]].strip()
+        expr = text[toks[k][2]:toks[q][1]].strip()
+        new = 'let mut verif_it = %s;\nwhile let Some(%s) = verif_it.next() {' % (expr, pat)
+        a, z = toks[j][1], toks[q][2]
+        deltas.append(dict(rule='R21', original=text[a:z], rewritten=new))
+        return text[:a] + new + text[z:]
+    raise AssembleError('R21 does not apply (no `for PAT in EXPR {`)')
 
 
 def rule_R16(text, deltas):
@@ -1212,6 +1249,8 @@ def expand_fn(fs, assumed_override=False, notes=None):
             body = rule_R19(body, deltas)
         if 'R18' in fs.rules:
             body = rule_R18(body, deltas)
+        if 'R21' in fs.rules:
+            body = rule_R21(body, deltas)
         if 'R16' in fs.rules:
             body = rule_R16(body, deltas)
         if 'R17' in fs.rules:
